@@ -583,16 +583,55 @@ macro_rules! graph_history {
                     }
                 }
             }
-            // detached walker agrees with the iterator
+            // detached walkers agree with the iterators: next (pairs), next_node, next_edge; over the outgoing list and
+            // over both lists (neighbors_undirected; for an undirected graph every walk covers both lists)
             for n in m.nodes.iter().map(|n| n.0) {
-                let mut w = g.neighbors(NodeIndex::new(n)).detach();
-                let mut walked: Vec<(usize, usize)> = vec![];
-                while let Some((e, x)) = w.next(&g) {
-                    walked.push((e.index(), x.index()));
+                let ni = NodeIndex::new(n);
+                {
+                    let mut w = g.neighbors(ni).detach();
+                    let mut walked: Vec<(usize, usize)> = vec![];
+                    while let Some((e, x)) = w.next(&g) {
+                        walked.push((e.index(), x.index()));
+                    }
+                    let it: Vec<usize> = g.neighbors(ni).map(|x| x.index()).collect();
+                    let ids: Vec<usize> = g.edges(ni).map(|r| r.id().index()).collect();
+                    if walked.iter().map(|x| x.1).collect::<Vec<_>>() != it || walked.iter().map(|x| x.0).collect::<Vec<_>>() != ids {
+                        bad.push(format!("step {}: detached walker from {} yields {:?}, neighbors {:?}, edges {:?}", i, n, walked, it, ids));
+                    }
+                    let mut w = g.neighbors(ni).detach();
+                    let mut by_edge: Vec<usize> = vec![];
+                    while let Some(e) = w.next_edge(&g) {
+                        by_edge.push(e.index());
+                    }
+                    let mut w = g.neighbors(ni).detach();
+                    let mut by_node: Vec<usize> = vec![];
+                    while let Some(x) = w.next_node(&g) {
+                        by_node.push(x.index());
+                    }
+                    if by_edge != ids || by_node != it {
+                        bad.push(format!("step {}: from {}: next_edge yields {:?} (edges: {:?}), next_node yields {:?} (neighbors: {:?})", i, n, by_edge, ids, by_node, it));
+                    }
                 }
-                let it: Vec<usize> = g.neighbors(NodeIndex::new(n)).map(|x| x.index()).collect();
-                if walked.iter().map(|x| x.1).collect::<Vec<_>>() != it {
-                    bad.push(format!("step {}: detached walker from {} yields {:?}, iterator {:?}", i, n, walked, it));
+                {
+                    let it: Vec<usize> = g.neighbors_undirected(ni).map(|x| x.index()).collect();
+                    let mut w = g.neighbors_undirected(ni).detach();
+                    let mut pairs: Vec<(usize, usize)> = vec![];
+                    while let Some((e, x)) = w.next(&g) {
+                        pairs.push((e.index(), x.index()));
+                    }
+                    let mut w = g.neighbors_undirected(ni).detach();
+                    let mut by_edge: Vec<usize> = vec![];
+                    while let Some(e) = w.next_edge(&g) {
+                        by_edge.push(e.index());
+                    }
+                    // every incident edge once (a self-loop once)
+                    let mut want_e: Vec<usize> = m.edges.iter().filter(|e| e.1 == n || e.2 == n).map(|e| e.0).collect();
+                    want_e.sort();
+                    let mut got_e = by_edge.clone();
+                    got_e.sort();
+                    if pairs.iter().map(|x| x.1).collect::<Vec<_>>() != it || pairs.iter().map(|x| x.0).collect::<Vec<_>>() != by_edge || got_e != want_e {
+                        bad.push(format!("step {}: both-lists walker from {}: next yields {:?}, next_edge {:?}, neighbors_undirected {:?}, incident edges {:?}", i, n, pairs, by_edge, it, want_e));
+                    }
                 }
             }
             if !bad.is_empty() {
